@@ -8,6 +8,74 @@ COMMON = os.path.join(os.path.dirname(HERE), "common")
 ASSUMPTIONS = []
 
 
+ER_USES = """use super::telemetry_event::TelemetryData;
+use super::telemetry_event::TelemetryEvent;
+use crate::common::{logger, result::Result};
+use crate::host_clients::wire_server_client::WireServerClient;
+use crate::shared_state::agent_status_wrapper::AgentStatusSharedState;
+use crate::shared_state::key_keeper_wrapper::KeyKeeperSharedState;
+use crate::shared_state::telemetry_wrapper::TelemetrySharedState;
+use crate::proxy_agent_shared::misc_helpers;
+use crate::proxy_agent_shared::telemetry::Event;
+use std::fs::remove_file;
+use std::path::PathBuf;
+use std::time::Duration;
+use tokio_util::sync::CancellationToken;
+"""
+
+TR = "Tracked(tr): Tracked<&mut Trace>"
+
+
+def build_event_reader(u, er):
+    u.take(er, "EventReader::MAX_MESSAGE_SIZE", "impl_const")
+    u.take_fn(er, "EventReader::clean_files", ret="", ghost=TR, contract="""
+        ensures final(tr).removed == old(tr).removed.push(file),  // @C18.clean_files.removes_the_file_it_is_given
+                final(tr).same_uploads(*old(tr)),
+""", e9=[("remove_file(&file)", None, "file: &PathBuf, " + TR, "&file, Tracked(tr)", "std::io::Result<()>",
+          "    ensures final(tr).removed == old(tr).removed.push(*file), final(tr).same_uploads(*old(tr)),",
+          dict(body="remove_file(file)", name="vx_e9_remove_file"))])
+    u.take_fn(er, "EventReader::send_data_to_wire_server", ret="", ghost=TR,
+              ghost_calls=[("send_telemetry_data", None, "Tracked(tr)")], contract="""
+        requires old(tr).wf(),
+                 telemetry_data@.len() > 0 ==> xml_len(telemetry_data@) < LIMIT(),  // @C18.send_data_to_wire_server.pre.batch_smaller_than_64KiB
+        ensures final(tr).wf(),  // @C18.send_data_to_wire_server.uploads_are_the_batch_document_at_most_5_times
+                final(tr).removed == old(tr).removed,
+                final(tr).batches == (if telemetry_data@.len() > 0 { old(tr).batches.push(telemetry_data@) } else { old(tr).batches }),  // @C18.send_data_to_wire_server.one_batch_per_nonempty_data
+                telemetry_data@.len() == 0 ==> final(tr).posts == old(tr).posts,  // @C18.send_data_to_wire_server.empty_batch_is_not_uploaded
+""", pre_body="broadcast use lemma_repeat_len, lemma_concat_push;",
+              loop_iter_names={0: "it"}, loop_attrs={0: "#[verifier::loop_isolation(false)]"}, loops={0: """
+            invariant_except_break
+                tr.posts == old(tr).posts + repeat(xml_of(telemetry_data@), it.index@ as int),
+            invariant
+                it.seq().len() == 5,
+                tr.batches == old(tr).batches, tr.attempts == old(tr).attempts, tr.removed == old(tr).removed,
+            ensures
+                tr.posts == old(tr).posts + repeat(xml_of(telemetry_data@), tr.posts.len() - old(tr).posts.len()),
+                1 <= tr.posts.len() - old(tr).posts.len() <= 5,  // @C18.send_data_to_wire_server.at_most_5_attempts
+                tr.batches == old(tr).batches, tr.attempts == old(tr).attempts, tr.removed == old(tr).removed,
+"""},
+              e9=[("[0; 5]", None, "", "", "VxArrIter5", "    ensures vstd::std_specs::iter::IteratorSpec::remaining(&r).len() == 5,",
+                   dict(wrap="VxArrIter5", body="[0; 5].into_iter()", name="vx_e11_retry_5"))],
+              hints=[("for _ in", None, "after", """proof {
+            let k = tr.posts.len() - old(tr).posts.len();
+            tr.batches = tr.batches.push(telemetry_data@);
+            tr.attempts = tr.attempts.push(k);
+            assert(tr.batches.drop_last() =~= old(tr).batches);
+            assert(tr.attempts.drop_last() =~= old(tr).attempts);
+        }""")])
+    u.take_fn(er, "EventReader::send_events", ret="", ghost=TR,
+              ghost_calls=[("Self::send_data_to_wire_server", None, "Tracked(tr)")], contract="""
+        requires old(tr).wf(),
+        ensures final(tr).wf(),
+""")
+    u.take_fn(er, "EventReader::process_events_and_clean", ghost=TR,
+              ghost_calls=[("Self::send_events", None, "Tracked(tr)"), ("Self::clean_files", None, "Tracked(tr)")], contract="""
+        requires old(tr).wf(),
+        ensures final(tr).wf(),
+                final(tr).removed == old(tr).removed + files@,  // @C18.process_events_and_clean.every_input_file_is_cleaned
+""")
+
+
 def build(u):
     from vxlib import Undecided
     helpers = u.src("proxy_agent/src/common/helpers.rs")
@@ -21,19 +89,82 @@ def build(u):
     u.raw_file("deps.rs")
     u.raw_file("spec.rs")
 
+    serr = u.src("proxy_agent_shared/src/error.rs")
+    smisc = u.src("proxy_agent_shared/src/misc_helpers.rs")
+    sagg = u.src("proxy_agent_shared/src/proxy_agent_aggregate_status.rs")
+    err = u.src("proxy_agent/src/common/error.rs")
+    logger = u.src("proxy_agent/src/common/logger.rs")
+    key = u.src("proxy_agent/src/key_keeper/key.rs")
+    ar = u.src("proxy_agent/src/proxy/authorization_rules.rs")
+    ps = u.src("proxy_agent/src/proxy/proxy_summary.rs")
+    kkw = u.src("proxy_agent/src/shared_state/key_keeper_wrapper.rs")
+    tw = u.src("proxy_agent/src/shared_state/telemetry_wrapper.rs")
+    asw = u.src("proxy_agent/src/shared_state/agent_status_wrapper.rs")
+    wsc = u.src("proxy_agent/src/host_clients/wire_server_client.rs")
+
     with u.mod("proxy_agent_shared"):
         with u.mod("telemetry"):
             u.take_ext(tel, ["Event"], "vx_ext_event", uses="use serde_derive::{Deserialize, Serialize};")
+        with u.mod("error"):
+            u.take_ext(serr, ["Error", "ParseVersionErrorType", "CommandErrorType"], "vx_ext_shared_error")
+        with u.mod("result", uses="use super::error::Error;"):
+            u.raw("pub type Result<T> = core::result::Result<T, Error>;")
+        with u.mod("misc_helpers", uses="use crate::proxy_agent_shared::result::Result;\nuse serde::de::DeserializeOwned;\nuse std::path::{Path, PathBuf};"):
+            u.take_fn(smisc, "json_read_from_file", external_body=True)
+        with u.mod("proxy_agent_aggregate_status"):
+            # types mentioned only by the (opaque) actor message enums below
+            u.take(sagg, "ModuleState", "enum")
+            u.take(sagg, "ProxyConnectionSummary", "struct")
 
     with u.mod("common"):
+        with u.mod("error"):
+            u.take_ext(err, ["Error", "HyperErrorType", "WireServerErrorType", "KeyErrorType", "AclErrorType", "BpfErrorType"], "vx_ext_error", uses="use http::{uri::InvalidUri, StatusCode};")
+        with u.mod("result", uses="use super::error::Error;"):
+            u.raw("pub type Result<T> = core::result::Result<T, Error>;")
+        with u.mod("logger"):
+            u.take_fn(logger, "write", external_body=True, ret="")
+            u.take_fn(logger, "write_warning", external_body=True, ret="")
         with u.mod("helpers"):
             u.take_fn(helpers, "xml_escape", contract="""
     ensures r@ == esc(s@),  // @C18.xml_escape.is_entity_encoding
 """, pre_body="broadcast use ax_pat_char;\nproof { lemma_chain_is_esc(s@); }")
 
+    # --- types that exist in the unit only because EventReader / WireServerClient name them in their fields
+    #     (never inspected by the functions under contract; opaque to Verus, type-checked by rustc)
+    with u.mod("key_keeper"):
+        with u.mod("key", uses="use std::collections::HashMap;"):
+            u.take(key, "Key", "struct", extra_attrs="#[verifier::external_body]")
+            u.take(key, "Privilege", "struct", extra_attrs="#[verifier::external_body]")
+            u.take(key, "Identity", "struct", extra_attrs="#[verifier::external_body]")
+    with u.mod("proxy", uses=""):
+        with u.mod("authorization_rules", uses="use crate::key_keeper::key::{Identity, Privilege};\nuse std::collections::{HashMap, HashSet};"):
+            u.take(ar, "AuthorizationMode", "enum")
+            u.take(ar, "ComputedAuthorizationItem", "struct", extra_attrs="#[verifier::external_body]")
+        with u.mod("proxy_summary", uses="use std::path::PathBuf;"):
+            u.take(ps, "ProxySummary", "struct", extra_attrs="#[verifier::external_body]")
+    with u.mod("shared_state"):
+        with u.mod("key_keeper_wrapper"):
+            u.take_ext(kkw, ["KeyKeeperAction", "KeyKeeperSharedState"], "vx_ext_kkw", uses="use crate::proxy::authorization_rules::ComputedAuthorizationItem;\nuse crate::key_keeper::key::Key;\nuse std::sync::Arc;\nuse tokio::sync::{mpsc, oneshot, Notify};")
+        with u.mod("telemetry_wrapper"):
+            u.take_ext(tw, ["TelemetryAction", "TelemetrySharedState"], "vx_ext_tw", uses="use crate::telemetry::event_reader::VmMetaData;\nuse tokio::sync::{mpsc, oneshot};")
+        with u.mod("agent_status_wrapper"):
+            u.take_ext(asw, ["AgentStatusAction", "AgentStatusModule", "AgentStatusSharedState"], "vx_ext_asw", uses="use crate::proxy::proxy_summary::ProxySummary;\nuse crate::proxy_agent_shared::proxy_agent_aggregate_status::{ModuleState, ProxyConnectionSummary};\nuse tokio::sync::{mpsc, oneshot};")
+    with u.mod("host_clients"):
+        with u.mod("wire_server_client", uses="use crate::common::result::Result;\nuse crate::shared_state::key_keeper_wrapper::KeyKeeperSharedState;"):
+            u.take(wsc, "WireServerClient", "struct", extra_attrs="#[verifier::external_body]")
+            with u.impl_(wsc, "WireServerClient"):
+                u.take_fn(wsc, "WireServerClient::send_telemetry_data", external_body=True, ghost="Tracked(tr): Tracked<&mut Trace>", contract="""
+        ensures final(tr).posts == (if xml_data@.len() == 0 { old(tr).posts } else { old(tr).posts.push(xml_data@) }),
+                final(tr).batches == old(tr).batches, final(tr).attempts == old(tr).attempts, final(tr).removed == old(tr).removed,
+""")
+
     with u.mod("telemetry"):
-        with u.mod("event_reader"):
+        with u.mod("event_reader", uses=ER_USES):
             u.take(er, "VmMetaData", "struct", keep_derive=("Clone",))
+            u.take(er, "EventReader", "struct", extra_attrs="#[verifier::external_body]")
+            with u.impl_(er, "EventReader"):
+                build_event_reader(u, er)
+            u.flush_e9()   # generated E9/E11 stubs live in this module so that their verbatim bodies resolve
         with u.mod("telemetry_event", uses="use super::event_reader::VmMetaData;\nuse crate::common::helpers;\nuse crate::proxy_agent_shared::telemetry::Event;"):
             u.take(te, "TelemetryData", "struct")
             u.take(te, "TelemetryEvent", "struct")
@@ -49,7 +180,13 @@ impl View for TelemetryData {
 """)
                 u.take_fn(te, "TelemetryData::to_xml", contract="""
         ensures r@ == xml_of(self@),  // @C18.TelemetryData.to_xml.document_of_view
-""")
+""", loop_iter_names={0: "it"}, loops={0: """
+            invariant
+                it.seq().unref() == self.events@,
+                xml@ == "<?xml version=\\"1.0\\"?><TelemetryData version=\\"1.0\\"><Provider id=\\"FFF0196F-EE4C-4EAF-9AA5-776F622DEB4F\\">"@ + events_xml(self.events@.subrange(0, it.index@ as int)),
+"""}, hints=[("xml.push_str(&e.to_xml_event());", None, "after", """proof {
+                assert(self.events@.subrange(0, it.index@ + 1).drop_last() =~= self.events@.subrange(0, it.index@ as int));
+            }"""), ("xml.push_str(\"</Provider></TelemetryData>\");", None, "before", "proof { assert(self.events@.subrange(0, self.events@.len() as int) =~= self.events@); }")])
                 u.take_fn(te, "TelemetryData::get_size", contract="""
         ensures r == xml_len(self@),  // @C18.TelemetryData.get_size.is_document_size_in_bytes
 """)
